@@ -209,33 +209,35 @@ class PITConv1d(nn.Conv1d, PITModule):
                 value=0
             )
             # If explicit padding nn.Module exist is simply substituted with new_pad
-            # else a new node is created and new_pad inserted
-            for inp in n.args:
-                inp = cast(fx.Node, inp)
-                if inp.op == 'call_module':
-                    if isinstance(mod.get_submodule(str(inp.target)), nn.ConstantPad1d):
-                        pad_sites = [m for m in mod.graph.nodes
-                                     if m.op == 'call_module' and m.target == inp.target]
-                        shared = any(u.op != 'call_module' or u.target != n.target
-                                     for m in pad_sites for u in m.users)
-                        if shared:
-                            # the padded tensor (or the padding module) also feeds other layers,
-                            # which need their own amount of padding: give this layer its own,
-                            # at every place where it is invoked
-                            mod.add_submodule(str(n.target) + "_pad", new_pad)
-                            for site in [m for m in mod.graph.nodes
-                                         if m.op == 'call_module' and m.target == n.target]:
-                                old_pad = site.args[0]
-                                if old_pad in pad_sites:
-                                    with mod.graph.inserting_before(site):
-                                        new_node = mod.graph.call_module(
-                                            str(n.target) + "_pad",
-                                            args=old_pad.args)
-                                    site.replace_input_with(old_pad, new_node)
-                        else:
-                            mod.add_submodule(str(inp.target), new_pad)
-                        break  # Found it, we can exit and go on
-            else:  # Did not find anything
+            # else a new node is created and new_pad inserted.
+            # This is done at every place where the layer is invoked; a padded tensor (or a
+            # padding module) that also feeds other layers, which need their own amount of
+            # padding, is left alone and the layer gets a padding module of its own.
+            found = False
+            for site in [m for m in mod.graph.nodes
+                         if m.op == 'call_module' and m.target == n.target]:
+                for inp in site.args:
+                    if not isinstance(inp, fx.Node) or inp.op != 'call_module' or not isinstance(
+                            mod.get_submodule(str(inp.target)), nn.ConstantPad1d):
+                        continue
+                    found = True
+                    if inp.target == str(n.target) + "_pad":
+                        break  # already its own padding
+                    pad_sites = [m for m in mod.graph.nodes
+                                 if m.op == 'call_module' and m.target == inp.target]
+                    shared = any(u.op != 'call_module' or u.target != n.target
+                                 for m in pad_sites for u in m.users)
+                    if shared:
+                        mod.add_submodule(str(n.target) + "_pad", new_pad)
+                        with mod.graph.inserting_before(site):
+                            new_node = mod.graph.call_module(
+                                str(n.target) + "_pad",
+                                args=inp.args)
+                        site.replace_input_with(inp, new_node)
+                    else:
+                        mod.add_submodule(str(inp.target), new_pad)
+                    break  # Found it, we can exit and go on
+            if not found:  # Did not find anything
                 mod.add_submodule(str(n.target) + "_pad", new_pad)
                 with mod.graph.inserting_before(n):
                     new_node = mod.graph.call_module(
